@@ -33,6 +33,90 @@ UNTERMINATED = {
 }
 
 
+# short representative documents, one token kind after the other; every prefix of each is an input, so that the input
+# ends in every distinct lexer / minifier state (inside a comment, PI, CDATA, DOCTYPE, tag, attribute value, string,
+# url(, template literal, regex, raw-text element, ...): an early return for one particular end-of-input state skips
+# the final probe write only for inputs that end exactly there
+TRUNC = {
+    'svg': [b'<?xml version="1.0"?><svg><g id="a"/></svg>',
+            b'<svg><path d="M0 0"/></svg><?pi href="a"?> ',
+            b'<svg><!-- c --><style>a{b:c}</style></svg>',
+            b'<svg><![CDATA[ x ]]><text> a </text></svg>',
+            b'<!DOCTYPE svg [<!ENTITY a "b">]><svg/>',
+            b'<svg a=\'b\' c="d"><metadata>x</metadata></svg>',
+            b'<svg><style><![CDATA[a{b:c}]]></style></svg>',
+            b'<svg xmlns:x="y"><x:a b="c"/><rect x="1px"/></svg>',
+            b'<svg><script>var a = 1;</script><a/></svg>',
+            b'<svg style="a:b" fill="#ffffff"> <g> </g> </svg>'],
+    'xml': [b'<?xml version="1.0"?><a b="c"> d </a>',
+            b'<a><!-- c --><![CDATA[ x ]]></a><?pi x?>',
+            b'<!DOCTYPE a [<!ENTITY b "c">]><a/>',
+            b'<a b=\'c\' d="e&amp;f"><b/> t </a >',
+            b'<a> <b> x </b> <?p q?> </a>',
+            b'<a><![CDATA[]]><![CDATA[ <b> ]]> y</a>',
+            b'<!DOCTYPE a SYSTEM "x.dtd"><a>&lt;</a>',
+            b'<a  b = "c" ><!----> <c/> </a>'],
+    'html': [b'<!doctype html><p class="a b" id=x>t</p>',
+             b'<a href=\'x\' title="y">z</a><!-- c -->',
+             b'<script>var a = "b";</script><p>x',
+             b'<style>a{b:c}</style><pre> x </pre>',
+             b'<textarea> a </textarea><br/><![CDATA[x]]>',
+             b'<svg><path d="M0 0"/></svg><math><mi>x</mi></math>',
+             b'<p>a &amp; b</p><input value="c" disabled>',
+             b'<?php x ?><div style="a:b" onclick="c()">d</div>',
+             b'<title> t </title><iframe>x</iframe>',
+             b'<ul><li>a<li>b</ul><select><option>c</select>',
+             b'<!--[if IE]><p>x</p><![endif]--><b> y </b>',
+             b'<a href="data:text/css,a{b:c}">x</a>'],
+    'css': [b'a{b:c;d:"e";f:url(g.png)}',
+            b'/* c */@media x{a{b:c}}',
+            b'@import "a.css";a[b="c"]{d:e}',
+            b'a{b:rgb(1,2,3);c:calc(1px + 2px)}',
+            b'a>b,c+d{e:f!important}/*! k */',
+            b'@font-face{a:b}a::after{content:\'\\n\'}',
+            b'a{b:url( "x y" );c:#ffffff;d:1.0e2px}',
+            b'<!-- a{b:c} -->',
+            b'@charset "utf-8";@x y{z}',
+            b'a{b:c d,e f;g:U+0-7F;--h:{i}}'],
+    'js': [b'var a = "b", c = \'d\', e = `f${g}h`;',
+           b'/* c */ a = /re[/]/g; // d',
+           b'function f(a){return a+1}f(2)',
+           b'if(a){b()}else{c()}for(;;){}',
+           b'a = {b: 1, "c": [2, 3]}; a?.b',
+           b'class A extends B{c(){}}',
+           b'x = a ? b : c; y = 1.0e3; z = 0x1F',
+           b'label: while(a) break label;',
+           b'a => {b}; async () => await c',
+           b'#!/bin/x\na <!-- b\n--> c',
+           b'try{a}catch(e){b}finally{c}'],
+    'json': [b'{"a": [1, 2.0e1, true, null], "b": "c\\"d"}',
+             b'[ {"a":{}}, [], "\\u00e9", -0.5 ]',
+             b'  "string"  ', b'123', b'{"a":false}'],
+}
+
+
+def truncations(ctx, suite):
+    """every prefix of the representative documents (quick) and of every suite input (thorough)"""
+    out = {}
+    for t in ORDER:
+        seen, lst = set(), []
+        docs = list(TRUNC[t])
+        if not ctx.quick():
+            docs += [s for s in suite[t] if len(s) <= 4000]
+        for d in docs:
+            n = len(d)
+            step = 1 if n <= 160 else max(2, n // 120)
+            for k in range(1, n + 1):
+                if step > 1 and k > 80 and k < n - 20 and k % step:
+                    continue
+                p = d[:k]
+                if p not in seen:
+                    seen.add(p)
+                    lst.append(p)
+        out[t] = lst
+    return out
+
+
 def choose_inputs(ctx, suite):
     rnd = ctx.rnd
     out = {}
@@ -56,10 +140,18 @@ def choose_inputs(ctx, suite):
     return out
 
 
-def make_cases(ctx, inputs):
+def make_cases(ctx, inputs, trunc):
     rnd = ctx.rnd
     cases = []
     quick = ctx.quick()
+    # inputs that end in every lexer / minifier state: the sink fails from every call k, plain call
+    done = set()
+    for t in ORDER:
+        for j, s in enumerate(trunc[t]):
+            done.add((t, s))
+            reg = base.REGS[j % 3]
+            cases.append(dict(id=len(cases), mode='plain', mt=base.mt_for(t, reg, rnd, params=False), reg=reg, enum='sink',
+                              stride=1 if len(s) <= 400 else 4, chunks=[], tag='trunc:' + t, **{'in': list(s)}))
     for t in ORDER:
         for j, s in enumerate(inputs[t]):
             reg = base.REGS[j % 3]
@@ -175,7 +267,9 @@ def run(ctx):
     futs = [(n, pool.submit(f)) for n, f in mc_jobs(ctx, 'quick' if quick else 'thorough')]
     suite = base.suite_inputs(ctx)
     inputs = choose_inputs(ctx, suite)
-    cases = make_cases(ctx, inputs)
+    trunc = truncations(ctx, suite)
+    cases = make_cases(ctx, inputs, trunc)
+    ctx.coverage['truncated_inputs'] = sum(len(v) for v in trunc.values())
     pinned = vlib.known_cases(PID)
     # ---- RUN
     lines = base.run_driver(ctx, exe, cases, 'enum', procs=max(1, min(vlib.JOBS, 8)), timeout=2400)
@@ -280,13 +374,15 @@ def run(ctx):
         inputs=ninputs,
         records_by_mode=by_mode,
         records_with_fault_delivered=by_kind,
-        rule='for each chosen input (suite inputs of the six media types%s, inputs ending inside a construct, seeded prefixes): a '
+        rule='every prefix of %s (inputs ending in every lexer/minifier state; sink faults at every call); and for each chosen input '
+             '(suite inputs of the six media types%s, inputs ending inside a construct, seeded prefixes): a '
              'fault-free run, then one run per fault position - sink failing from its k-th call on for every k in 1..nw+1, '
              'source failing after k bytes for every k in 0..len x {separate, short final read} x {plain error, '
              'io.ErrUnexpectedEOF, error wrapping io.EOF}, both armed together; plain Minify, and the Writer (sink faults) and '
              'Reader (source faults) wrappers%s. A case is (input, entry point, fault position/kind); non-trivial = the double '
              'actually returned its error to the code under test.'
-             % (' (seeded subset)' if quick else '', '; positions of inputs longer than 48 bytes are strided in the quick tier' if quick else ''),
+             % ('%d representative documents per media type' % max(len(v) for v in TRUNC.values()) if quick else 'the representative documents and every suite input',
+                ' (seeded subset)' if quick else '', '; positions of inputs longer than 48 bytes are strided in the quick tier' if quick else ''),
         samples=samples,
         exhaustive=not quick,
     ))
